@@ -99,6 +99,8 @@ def build_overlay(work, prop, unit):
     # 3. the existing tests of the unit's packages are removed from the build
     for p in pkgs:
         d = os.path.join(REPO, p)
+        if not os.path.isdir(d):
+            continue  # virtual package that exists only in the overlay
         for f in os.listdir(d):
             if f.endswith("_test.go") and os.path.join(d, f) not in replace:
                 replace[os.path.join(d, f)] = ""
@@ -155,11 +157,13 @@ def run_unit(work, prop, unit, binp, tier, seed, replay=None):
     shards = 1 if replay else int(unit.get("shards_" + tier, unit.get("shards", 1)))
     timeout = unit.get("timeout_" + tier, "20m" if tier == "quick" else "120m")
     rundir = os.path.join(REPO, unit["pkg"]) if not unit.get("external") else os.path.join(VERIF, unit["external"])
+    if not os.path.isdir(rundir):
+        rundir = REPO  # virtual package: run from the repository root
     procs = []
     for i in range(shards):
         env = dict(ENV)
         env.update({"VERIF_TIER": tier, "VERIF_SEED": str(seed), "VERIF_OUT": outf, "VERIF_SHARD": "%d/%d" % (i, shards),
-                    "VERIF_WORK": work, "VERIF_DIR": VERIF, "VERIF_REPO": REPO})
+                    "VERIF_WORK": work, "VERIF_REPO": REPO})
         env.update(unit.get("env", {}))
         if replay:
             env["VERIF_REPLAY"] = replay
